@@ -8,6 +8,7 @@ import (
 	"os"
 	"path"
 	"slices"
+	"strconv"
 	"strings"
 )
 
@@ -93,8 +94,8 @@ func Changes(cmd CommandRunner, baseBranch string, filter PathFilter) ([]*FileCh
 		}
 
 		status := FileStatus(parts[0][0])
-		srcPath := parts[1]
-		dstPath := parts[len(parts)-1]
+		srcPath := unquotePath(parts[1])
+		dstPath := unquotePath(parts[len(parts)-1])
 		slog.Debug("Git file change", slog.String("change", parts[0]), slog.String("path", dstPath), slog.String("commit", commit))
 
 		if !filter.IsPathAllowed(dstPath) {
@@ -310,7 +311,7 @@ func getTypeForPath(cmd CommandRunner, commit, fpath string) PathType {
 		if len(parts) != 2 {
 			continue
 		}
-		objpath := parts[1]
+		objpath := unquotePath(parts[1])
 		slog.Debug("ls-tree line",
 			slog.String("mode", objmode),
 			slog.String("type", objtype),
@@ -368,6 +369,18 @@ func CountLines(body []byte) (lines []int) {
 		lines = append(lines, line)
 	}
 	return lines
+}
+
+// git prints paths with non-ASCII or special characters as C-style quoted strings ("r\303\244.yml"),
+// see core.quotePath in git-config(1).
+func unquotePath(s string) string {
+	if len(s) < 2 || s[0] != '"' || s[len(s)-1] != '"' {
+		return s
+	}
+	if u, err := strconv.Unquote(s); err == nil {
+		return u
+	}
+	return s
 }
 
 func isDirectoryPath(path string) (bool, error) {
